@@ -12,6 +12,7 @@ In all statements `ms` is the sequence *as the engine delivers it*: ascending fo
 pattern, descending for a right-to-left pattern; `none` / `Res.panic` stand for a Go run-time panic.
 -/
 import RegexVerif.Lemmas.Replace
+import RegexVerif.Lemmas.ReplaceStrict
 import RegexVerif.Generated.Replace
 
 namespace RegexVerif.Props.C09
@@ -395,5 +396,221 @@ theorem replace_inbounds (text : List Nat) (ms : List Match) (pieces : List Piec
     order makes the model of `Split` panic (this is what split.go did before it learnt about
     right-to-left patterns) -/
 example : split [97, 45, 98, 45, 99] [⟨1, 1, []⟩, ⟨3, 1, []⟩] (-1) true = .panic := by decide
+
+/-! ## ===== strict group lookups (session-3 audit: `$n` beyond the match's slots, spans outside the text) =====
+
+`replace_inbounds` / `split_inbounds` above are about the *driver loops*: the model they run
+(`Model/Replace.lean`) totalises the lookups inside one expansion — `groupSpan` is `getD`,
+`groupText`/`capTexts` use the total `slice`, `decodeRule` is `getD` — so a rule naming a slot the
+match does not have, a capture span outside the text or a string index outside the table cannot
+make them fail, while the Go code panics there (`m.matchcount[groupnum]`, `m.text.runes[index]`,
+`runes[i : i+l]`, `data.Strings[r]`).  `Model/ReplaceStrict.lean` has the same functions with those
+accesses indexed (`Res.panic` where Go indexes out of range).  The theorems of this section:
+
+* `strict_eq_total*`: a strict run that does not panic returns what the total run returns, with no
+  hypothesis at all — so everything proved above about `replace`/`replaceFunc`/`split` holds for
+  every non-panicking strict run, and the legs (which run the total functions on Go's non-panicking
+  runs) lose nothing;
+* `replace_no_panic_parsed`, `replaceData_no_panic_parsed`, `replaceFunc_no_panic`,
+  `split_no_panic`: the strict runs do not panic when the rules come from the model's scanner for
+  the regex's tables (`envOk`, `capsOk`: every slot a rule names is `< capsize`; every string index
+  is inside the table) and every match is a match of that regex on that text (`MatchOk`: exactly
+  `capsize` slots, the match and every capture inside the text — C08's `captures_in_bounds`);
+* `slot_capsize_panics`, `missing_slot_panics`: without that link the strict run does panic — the
+  totalisation was hiding a real precondition.
+-/
+
+section Strict
+open RegexVerif.Lemmas.ReplaceStrict
+
+/-- the example matches are matches of a regex with 3 slots on the example text; `[$2|$1]` names
+    slots below 3 -/
+example : (∀ m ∈ exMs, MatchOk 3 exText m = true) ∧ (∀ p ∈ exPieces, pieceOk 3 p = true) := by decide
+
+/-- **Strict = total wherever strict returns (`Replace`).**  For every text, match sequence (valid or
+    not), rule list or `ReplacerData`, count and direction: if the run with Go's indexed lookups does
+    not panic, it returns exactly what the totalised model returns.  (Conversely the total model can
+    only differ from Go's behaviour by returning a value where Go panics.) -/
+theorem strict_eq_total (text : List Nat) (ms : List Match) (pieces : List Piece) (d : ReplacerData)
+    (count : Int) (rtl : Bool) :
+    (replaceStrict text ms pieces count rtl ≠ .panic →
+        replaceStrict text ms pieces count rtl = replace text ms pieces count rtl)
+    ∧ (replaceDataStrict text ms d count rtl ≠ .panic →
+        replaceDataStrict text ms d count rtl = replace text ms d.pieces count rtl) :=
+  ⟨replaceWith_eq text ms pieces _ _ (fun m x h => expand?_eq pieces text m x h)
+      (fun m es h => expandRTL?_eq pieces text m es h) count rtl,
+   replaceWith_eq text ms d.pieces _ _ (fun m x h => expandData?_eq d text m x h)
+      (fun m es h => expandDataRTL?_eq d text m es h) count rtl⟩
+
+example : replaceStrict exText exMs exPieces 2 false = replace exText exMs exPieces 2 false
+    ∧ replaceStrict exText exMs exPieces 2 false ≠ .panic
+    ∧ replaceDataStrict exText exMs.reverse ⟨[[91], [93]], [0, -7, 1]⟩ (-1) true
+        = .ok ([91, 98, 93] ++ [99] ++ [91, 98, 93] ++ [32] ++ [91, 93]) := by decide
+
+/-- **Strict = total wherever strict returns (`ReplaceFunc`)**, for an evaluator `ev` that may itself
+    panic (`none`) and any total evaluator `ev'` that returns `ev`'s value whenever `ev` returns —
+    e.g. `ev = expand? pieces text` (an evaluator that reads groups by slot) and
+    `ev' = expand pieces text`. -/
+theorem strict_eq_total_func (text : List Nat) (ms : List Match) (ev : Match → Option (List Nat)) (ev' : Match → List Nat)
+    (hev : ∀ m x, ev m = some x → x = ev' m) (count : Int) (rtl : Bool)
+    (h : replaceFuncStrict text ms ev count rtl ≠ .panic) :
+    replaceFuncStrict text ms ev count rtl = replaceFunc text ms ev' count rtl :=
+  replaceFuncStrict_eq text ms ev ev' hev count rtl h
+
+example : (∀ m x, expand? exPieces exText m = some x → x = expand exPieces exText m)
+    ∧ replaceFuncStrict exText exMs (expand? exPieces exText) (-1) false ≠ .panic :=
+  ⟨fun m x h => expand?_eq exPieces exText m x h, by decide⟩
+
+/-- **Strict = total wherever strict returns (`Split`)**: with `Capture.String()`'s slice expression
+    bounds-checked, a `Split` that does not panic returns the totalised model's list. -/
+theorem strict_eq_total_split (text : List Nat) (ms : List Match) (count : Int) (rtl : Bool)
+    (h : splitStrict text ms count rtl ≠ .panic) : splitStrict text ms count rtl = split text ms count rtl :=
+  splitStrict_eq text ms count rtl h
+
+example : splitStrict exText exMs.reverse 2 true ≠ .panic
+    ∧ splitStrict exText exMs.reverse 2 true = .ok [[97, 98, 99], [98], [97], [32], [], [97], []] := by decide
+
+/-- **`Replace` with a parsed replacement does not panic on the regex's own matches.**  Let `env` be
+    the tables of a regex (`envOk`: group 0 exists, names map to capture slots; `capsOk`: the `caps`
+    table maps into `0 … capsize-1`), `pieces` what the scanner returns for a replacement string
+    against those tables, `ms` an ordered, disjoint, in-bounds match sequence in which every match has
+    exactly `capsize` slots and all its spans inside the text.  Then for every count and direction
+    no lookup of `replacementImpl`/`replacementImplRTL`/`groupValueAppendToBuf` and no slice of the
+    driver loop is out of range, and the result is the totalised model's (hence the fold of
+    `replace_eq_fold`). -/
+theorem replace_no_panic_parsed (isWord : Nat → Bool) (env : Env) (henv : envOk env = true) (hcaps : capsOk env = true)
+    (rep : List Nat) (pieces : List Piece) (hp : parse isWord env rep = .ok pieces)
+    (text : List Nat) (ms : List Match) (count : Int) (rtl : Bool)
+    (hv : valid rtl text ms = true) (hm : ∀ m ∈ ms, MatchOk env.capsize text m = true) :
+    replaceStrict text ms pieces count rtl ≠ .panic
+      ∧ replaceStrict text ms pieces count rtl = replace text ms pieces count rtl := by
+  have hok := parse_ok isWord env henv hcaps rep pieces hp
+  have heq : replaceStrict text ms pieces count rtl = replace text ms pieces count rtl :=
+    replaceWith_agree text ms pieces _ _
+      (fun m h => expand?_ok env.capsize text m (hm m h) pieces hok)
+      (fun m h => expandRTL?_ok env.capsize text m (hm m h) pieces hok) count rtl
+  exact ⟨by rw [heq]; exact (replace_inbounds text ms pieces (fun _ => []) count rtl hv).1, heq⟩
+
+/-- hypotheses satisfiable: `[$2|${n}$+$\`]` against the tables of `(a)(?<n>b)?` and its three
+    matches on `"abcab a"`, both directions -/
+example : envOk (exEnv false) = true ∧ capsOk (exEnv false) = true
+    ∧ parse exWord (exEnv false) [91, 36, 50, 124, 36, 123, 110, 125, 36, 43, 36, 96, 93]
+        = .ok [.lit [91], .group 2, .lit [124], .group 2, .lastGroup, .leftPortion, .lit [93]]
+    ∧ valid false exText exMs = true ∧ valid true exText exMs.reverse = true
+    ∧ (∀ m ∈ exMs, MatchOk (exEnv false).capsize exText m = true) :=
+  ⟨by decide, by decide, by rfl, by decide, by decide, by decide⟩
+
+/-- a `caps` table with sparse group numbers (`(?<5>a)(?<7>b)`: numbers 0, 5, 7 in slots 0, 1, 2) -/
+example : capsOk ⟨some [(0, 0), (5, 1), (7, 2)], 3, [], false⟩ = true
+    ∧ capsOk ⟨some [(0, 0), (5, 3)], 3, [], false⟩ = false := by decide
+
+/-- **The same on the integer rules**: for the `ReplacerData` that `NewReplacerData` builds, every
+    `data.Strings[r]` is inside the string table as well; the strict run on `(rules, strings)` does not
+    panic and returns what the total model returns on the decoded rules. -/
+theorem replaceData_no_panic_parsed (isWord : Nat → Bool) (env : Env) (henv : envOk env = true) (hcaps : capsOk env = true)
+    (rep : List Nat) (d : ReplacerData) (hd : newReplacerData isWord env rep = .ok d)
+    (text : List Nat) (ms : List Match) (count : Int) (rtl : Bool)
+    (hv : valid rtl text ms = true) (hm : ∀ m ∈ ms, MatchOk env.capsize text m = true) :
+    replaceDataStrict text ms d count rtl ≠ .panic
+      ∧ replaceDataStrict text ms d count rtl = replace text ms d.pieces count rtl := by
+  obtain ⟨hwf, hok⟩ := newReplacerData_ok isWord env henv hcaps rep d hd
+  have heq : replaceDataStrict text ms d count rtl = replace text ms d.pieces count rtl :=
+    replaceWith_agree text ms d.pieces _ _
+      (fun m h => expandData?_ok env.capsize text m (hm m h) d hwf hok)
+      (fun m h => expandDataRTL?_ok env.capsize text m (hm m h) d hwf hok) count rtl
+  exact ⟨by rw [heq]; exact (replace_inbounds text ms d.pieces (fun _ => []) count rtl hv).1, heq⟩
+
+example : newReplacerData exWord (exEnv false) [91, 36, 50, 93] = .ok ⟨[[91], [93]], [0, -7, 1]⟩ := by rfl
+
+/-- **`ReplaceFunc` does not panic** when the evaluator does not: for an evaluator `ev` that returns
+    (`some`) on every match of the regex on the text — in particular the evaluator that expands a
+    parsed replacement by slot lookups (second part) — no slice of the evaluator loops is out of
+    range, for every count and direction. -/
+theorem replaceFunc_no_panic (isWord : Nat → Bool) (env : Env) (henv : envOk env = true) (hcaps : capsOk env = true)
+    (rep : List Nat) (pieces : List Piece) (hp : parse isWord env rep = .ok pieces)
+    (text : List Nat) (ms : List Match) (count : Int) (rtl : Bool)
+    (hv : valid rtl text ms = true) (hm : ∀ m ∈ ms, MatchOk env.capsize text m = true) :
+    (∀ ev : Match → Option (List Nat), (∀ m, MatchOk env.capsize text m = true → (ev m).isSome = true) →
+        replaceFuncStrict text ms ev count rtl ≠ .panic
+          ∧ replaceFuncStrict text ms ev count rtl = replaceFunc text ms (fun m => (ev m).getD []) count rtl)
+    ∧ replaceFuncStrict text ms (expand? pieces text) count rtl ≠ .panic
+    ∧ replaceFuncStrict text ms (expand? pieces text) count rtl = replaceFunc text ms (expand pieces text) count rtl := by
+  have hgen : ∀ (ev : Match → Option (List Nat)) (ev' : Match → List Nat), (∀ m ∈ ms, ev m = some (ev' m)) →
+      replaceFuncStrict text ms ev count rtl ≠ .panic
+        ∧ replaceFuncStrict text ms ev count rtl = replaceFunc text ms ev' count rtl := by
+    intro ev ev' h
+    have heq := replaceFuncStrict_agree text ms ev ev' h count rtl
+    exact ⟨by rw [heq]; exact (replace_inbounds text ms [] ev' count rtl hv).2, heq⟩
+  refine ⟨?_, hgen _ _ (fun m h => expand?_ok env.capsize text m (hm m h) pieces (parse_ok isWord env henv hcaps rep pieces hp))⟩
+  intro ev hev
+  refine hgen ev _ ?_
+  intro m h
+  have := hev m (hm m h)
+  cases hx : ev m with
+  | none => rw [hx] at this; simp at this
+  | some x => rfl
+
+example : ∀ m, MatchOk 3 exText m = true → (expand? exPieces exText m).isSome = true := by
+  intro m hm
+  rw [expand?_ok 3 exText m hm exPieces (by decide)]; rfl
+
+/-- **`Split` does not panic on the regex's own matches**: for an ordered, disjoint, in-bounds
+    sequence of matches whose capture spans lie inside the text, neither the slice expressions of
+    split.go nor the `Capture.String()` of any group is out of range; the result is the totalised
+    model's (hence `split_eq_spec`). -/
+theorem split_no_panic (capsize : Nat) (text : List Nat) (ms : List Match) (count : Int) (rtl : Bool)
+    (hv : valid rtl text ms = true) (hm : ∀ m ∈ ms, MatchOk capsize text m = true) :
+    splitStrict text ms count rtl ≠ .panic ∧ splitStrict text ms count rtl = split text ms count rtl := by
+  have heq := splitStrict_agree text ms count rtl (fun m h => capTexts?_ok capsize text m (hm m h))
+  exact ⟨by rw [heq]; exact split_inbounds text ms count rtl hv, heq⟩
+
+example : splitStrict exText exMs (-1) false = .ok [[], [97], [98], [99], [97], [98], [32], [97], [], []] := by decide
+
+/-- **The totalisation was hiding a precondition (decided instance).**  Text `"abcab a"`, the three
+    matches of `(a)(b)?` (3 slots, all spans inside the text, sequence valid): the rule "group slot
+    3" (= `capsize`) makes the strict run panic — Go: `index out of range [3] with length 3` at
+    `m.matchcount[groupnum]` — while the totalised model returns a string; the same for a capture
+    span outside the text, for a string index outside the table and for `Split` with a span outside
+    the text.  So `replace_inbounds`/`split_inbounds` alone do not exclude these panics; the
+    `*_no_panic*` theorems' hypotheses `parse … = .ok pieces` / `MatchOk` are what does. -/
+theorem slot_capsize_panics :
+    (∀ m ∈ exMs, MatchOk 3 exText m = true) ∧ valid false exText exMs = true ∧ valid true exText exMs.reverse = true
+    ∧ pieceOk 3 (.group 3) = false
+    ∧ replaceStrict exText exMs [.lit [91], .group 3] (-1) false = .panic
+    ∧ replaceStrict exText exMs.reverse [.lit [91], .group 3] (-1) true = .panic
+    ∧ replace exText exMs [.lit [91], .group 3] (-1) false = .ok [91, 99, 91, 32, 91]
+    ∧ replaceFuncStrict exText exMs (expand? [.group 3] exText) 1 false = .panic
+    -- a capture span outside the text (`MatchOk` fails): `$1`, and `Split`
+    ∧ MatchOk 2 exText ⟨0, 2, [some (5, 4)]⟩ = false
+    ∧ replaceStrict exText [⟨0, 2, [some (5, 4)]⟩] [.group 1] (-1) false = .panic
+    ∧ replace exText [⟨0, 2, [some (5, 4)]⟩] [.group 1] (-1) false = .ok [32, 97, 99, 97, 98, 32, 97]
+    ∧ splitStrict exText [⟨0, 2, [some (5, 4)]⟩] (-1) false = .panic
+    ∧ split exText [⟨0, 2, [some (5, 4)]⟩] (-1) false = .ok [[], [32, 97], [99, 97, 98, 32, 97]]
+    -- a string index outside the table
+    ∧ replaceDataStrict exText exMs ⟨[[91]], [0, 1]⟩ (-1) false = .panic
+    ∧ replace exText exMs (ReplacerData.pieces ⟨[[91]], [0, 1]⟩) (-1) false = .ok [91, 99, 91, 32, 91] := by
+  decide
+
+/-- **… and in general**: whenever at least one match is processed (`count ≠ 0`, `count ≥ -1`, a
+    non-empty sequence) and some rule names a slot beyond the slots of the first delivered match, the
+    strict `Replace` panics, in both directions, whatever the text and the other rules. -/
+theorem missing_slot_panics (text : List Nat) (m : Match) (rest : List Match) (pieces : List Piece) (slot : Nat)
+    (count : Int) (rtl : Bool) (hc : -1 ≤ count) (h0 : count ≠ 0)
+    (hp : Piece.group slot ∈ pieces) (hs : m.groups.length < slot) :
+    replaceStrict text (m :: rest) pieces count rtl = .panic := by
+  obtain ⟨h1, h2⟩ := expand?_none pieces text m slot hp hs
+  have hlt : ¬ count < -1 := by omega
+  unfold replaceStrict replaceWith
+  simp only [hlt, h0, if_false]
+  cases rtl with
+  | true => simp [loopRTLStrict_first_none _ _ m rest _ _ _ h2, Res.ofOption]
+  | false => simp [loopLTRStrict_first_none _ _ m rest _ _ _ h1, Res.ofOption]
+
+example : replaceStrict exText exMs [.lit [91], .group 3] 1 true = .panic :=
+  missing_slot_panics exText _ _ _ 3 1 true (by decide) (by decide) (by decide) (by decide)
+
+end Strict
+
+/-! ## ===== end of the strict-lookup section ===== -/
 
 end RegexVerif.Props.C09
